@@ -60,7 +60,7 @@ func childMode() bool {
 }
 
 func TestMain(m *testing.M) {
-	if childMode() {
+	if childMode() || probeChildMode() {
 		os.Exit(0)
 	}
 	// logrus.New() captures the os.Stderr *variable* when a logger is built; point it at
